@@ -151,7 +151,10 @@ class Labware:
         initial_volumes = np.array(initial_volumes)
         if initial_volumes.dtype == object:
             # e.g. Python integers beyond 64 bit: numpy cannot compare or test them
-            initial_volumes = initial_volumes.astype(float)
+            try:
+                initial_volumes = initial_volumes.astype(float)
+            except OverflowError:
+                raise ValueError("initial_volume cannot be above max_volume")
         if initial_volumes.shape == ():
             initial_volumes = np.full((rows, columns), initial_volumes)
         else:
